@@ -475,3 +475,43 @@ Proof.
   - intros [[[hd fut] E1] [[bd m] E2]]. rewrite E1, E2. eauto.
 Qed.
 End Accept.
+
+(* totality (C15): the translation of a program of the fragment fails exactly when one of its rules is rejected (the diagnostic case of
+   rule_accepted_iff_all_placements_allowed); the regenerated look-ahead test never takes the branch in which the Python expression would raise *)
+Section Total.
+Variable A : Type.
+Variable leA : A -> A -> bool.
+Lemma lookahead_part_total z f : lookahead_part_gen z f <> None.
+Proof. unfold lookahead_part_gen, pand, pnot, olift2. destruct (Z.gtb z 0), f; discriminate. Qed.
+Lemma step_none_iff o r : step A leA (Some o) r = None <-> transform_rule A r = None.
+Proof.
+  unfold step. destruct (transform_rule A r) as [t|]; [|split; reflexivity].
+  pose proof (lookahead_part_total (Z.of_nat (t_shift A t)) (is_final (fp A r))) as H.
+  destruct (lookahead_part_gen (Z.of_nat (t_shift A t)) (is_final (fp A r))) as [[|]|]; [split; discriminate|split; discriminate|contradiction].
+Qed.
+Lemma fold_step_none P : fold_left (step A leA) P None = None.
+Proof. induction P as [|r P IH]; [reflexivity|exact IH]. Qed.
+Lemma fold_step_total P : forall o, fold_left (step A leA) P (Some o) = None <-> exists r, In r P /\ transform_rule A r = None.
+Proof.
+  induction P as [|r P IH]; intros o; cbn [fold_left].
+  - split; [discriminate|intros (r & [] & _)].
+  - destruct (step A leA (Some o) r) as [o'|] eqn:E.
+    + rewrite IH. split; intros (r' & Hin & Hr); exists r'; (split; [|exact Hr]); [now right|].
+      destruct Hin as [<-|Hin]; [|exact Hin]. apply (step_none_iff o) in Hr. congruence.
+    + rewrite fold_step_none. split; [intros _|reflexivity]. exists r. split; [now left|]. now apply (step_none_iff o).
+Qed.
+Theorem transform_program_total (P : list (frule A)) :
+  transform_program A leA P = None <-> exists r, In r P /\ transform_rule A r = None.
+Proof.
+  unfold transform_program. rewrite <- (fold_step_total P (empty A)).
+  destruct (fold_left (step A leA) P (Some (empty A))); split; congruence.
+Qed.
+End Total.
+Theorem transform_program_fails_iff_forbidden_placement (A : Type) (leA : A -> A -> bool) (P : list (frule A)) :
+  transform_program A leA P = None <->
+  exists r, In r P /\ ~ (head_allowed A (fh A r) = true /\ forallb (lit_allowed A (shape_of A (fh A r))) (fb A r) = true).
+Proof.
+  rewrite transform_program_total. split; intros (r & Hin & Hr); exists r; (split; [exact Hin|]).
+  - rewrite <- rule_accepted_iff_all_placements_allowed. intros [t E]. congruence.
+  - rewrite <- rule_accepted_iff_all_placements_allowed in Hr. destruct (transform_rule A r) as [t|]; [|reflexivity]. exfalso. apply Hr. now exists t.
+Qed.
